@@ -7,6 +7,7 @@
 (*  srcread  src, k, n, err in {"nil","eof","err"}   one Read on a source    *)
 (*  srcclose src                                      Close on a source      *)
 (*  wclose                                            Close on tee's writer  *)
+(*  stop                                              tee.Stop() returned    *)
 (*  read     k, n, err in {"nil","eof","toolarge","srcerr","other"}, ok      *)
 (*           wrapper.Read returned n bytes; ok <=> they are exactly the next *)
 (*           n bytes of the expected stream (compared by the harness)        *)
@@ -100,6 +101,7 @@ CNext(c, e) ==
          [] e.ev = "read"     -> CRead(c, e)
          [] e.ev = "writeto"  -> CWriteTo(c, e)
          [] e.ev = "teewrite" -> CTeeWrite(c, e)
+         [] e.ev = "stop"     -> c      \* tee.Stop(): closes the writer only (wclose precedes it); the closing laws are judged at `end`
          [] e.ev = "close"    -> CClose(c)
          [] e.ev = "end"      -> CEnd(c)
 =============================================================================
